@@ -173,31 +173,113 @@ Proof.
   rewrite zlen_app, IH. f_equal. unfold zlen. now rewrite repeat_length.
 Qed.
 
-(* ------------------------------------------------------------ surviving indices *)
-Lemma kept_from_app N s E A : kept_from N s (E ++ A) = kept_from N s E ++ kept_from N (s + zlen E) A.
+(* ------------------------------------------------------------ surviving edges and their indices *)
+Lemma fresh_app_id seen (l1 l2 : list edge) :
+  fresh edge_eqb (fun e => e) seen (l1 ++ l2) =
+  fresh edge_eqb (fun e => e) seen l1 ++ fresh edge_eqb (fun e => e) (rev (fresh edge_eqb (fun e => e) seen l1) ++ seen) l2.
 Proof.
-  revert s; induction E as [|e t IH]; intros s.
+  revert seen; induction l1 as [|a t IH]; intros seen; cbn; [reflexivity|].
+  destruct (existsb (edge_eqb a) seen) eqn:E; [apply IH|].
+  cbn. rewrite IH. f_equal. f_equal. now rewrite <- app_assoc.
+Qed.
+
+Lemma existsb_ext_mem (k : edge) l1 l2 : (forall x, In x l1 <-> In x l2) -> existsb (edge_eqb k) l1 = existsb (edge_eqb k) l2.
+Proof.
+  intros H. apply eq_true_iff_eq. rewrite !(existsb_eq edge_eqb edge_eqb_spec). apply H.
+Qed.
+
+Lemma fresh_seen_ext seen1 seen2 (l : list edge) : (forall x, In x seen1 <-> In x seen2) ->
+  fresh edge_eqb (fun e => e) seen1 l = fresh edge_eqb (fun e => e) seen2 l.
+Proof.
+  revert seen1 seen2; induction l as [|a t IH]; intros s1 s2 H; cbn; [reflexivity|].
+  rewrite (existsb_ext_mem a s1 s2 H). destruct (existsb (edge_eqb a) s2); [now apply IH|].
+  f_equal. apply IH. intros x; cbn. rewrite H. tauto.
+Qed.
+
+Lemma fresh_all_id seen (l : list edge) : NoDup l -> (forall x, In x l -> ~ In x seen) -> fresh edge_eqb (fun e => e) seen l = l.
+Proof.
+  revert seen; induction l as [|a t IH]; intros seen Hn Hd; cbn; [reflexivity|].
+  inversion Hn as [|a' t' Hnot Hnt]; subst.
+  assert (E : existsb (edge_eqb a) seen = false).
+  { apply not_true_iff_false. rewrite (existsb_eq edge_eqb edge_eqb_spec). apply Hd. now left. }
+  rewrite E. f_equal. apply IH.
+  - exact Hnt.
+  - intros x Hx Hs. destruct Hs as [Hs|Hs].
+    + apply Hnot. now rewrite Hs.
+    + apply (Hd x); [now right | exact Hs].
+Qed.
+
+(* the final declared part: valid, keyified, each pair once (first declaration) *)
+Definition norm_edges (N : Z) (E : list edge) : list edge :=
+  fresh edge_eqb (fun e => e) [] (filter (evalid N) (map kedge E)).
+
+Lemma sel_from_spec N seen es :
+  map kedge (sel_from N seen es) = fresh edge_eqb (fun e => e) seen (filter (evalid N) (map kedge es)).
+Proof.
+  revert seen; induction es as [|e t IH]; intros seen; cbn; [reflexivity|].
+  unfold ekeep, edges_dedupe. rewrite evalid_kedge. destruct (evalid N e); cbn; [|apply IH].
+  destruct (existsb (edge_eqb (kedge e)) seen); cbn; [apply IH | now rewrite IH].
+Qed.
+
+Lemma sel_from_length_le N seen es : (length (sel_from N seen es) <= length es)%nat.
+Proof.
+  revert seen; induction es as [|e t IH]; intros seen; cbn; [lia|].
+  destruct (ekeep N seen e); cbn; [specialize (IH (kedge e :: seen)) | specialize (IH seen)]; lia.
+Qed.
+
+Lemma kept_from_length N seen s es : length (kept_from N seen s es) = length (sel_from N seen es).
+Proof.
+  revert seen s; induction es as [|e t IH]; intros seen s; cbn; [reflexivity|].
+  destruct (ekeep N seen e); cbn; now rewrite IH.
+Qed.
+
+Definition seen_after (N : Z) (seen : list edge) (es : list edge) : list edge :=
+  rev (map kedge (sel_from N seen es)) ++ seen.
+
+Lemma sel_from_app N seen E A :
+  sel_from N seen (E ++ A) = sel_from N seen E ++ sel_from N (seen_after N seen E) A.
+Proof.
+  unfold seen_after. revert seen; induction E as [|e t IH]; intros seen; cbn; [reflexivity|].
+  destruct (ekeep N seen e); cbn; rewrite IH; [|reflexivity]. now rewrite <- app_assoc.
+Qed.
+
+Lemma kept_from_app N seen s E A :
+  kept_from N seen s (E ++ A) = kept_from N seen s E ++ kept_from N (seen_after N seen E) (s + zlen E) A.
+Proof.
+  unfold seen_after. revert seen s; induction E as [|e t IH]; intros seen s.
   - cbn. unfold zlen; cbn. now rewrite Z.add_0_r.
   - replace (s + zlen (e :: t)) with (s + 1 + zlen t) by (unfold zlen; cbn [length]; lia).
-    cbn [kept_from app]. destruct (evalid N e); rewrite IH; reflexivity.
+    cbn [kept_from sel_from app]. destruct (ekeep N seen e); cbn [map rev app]; rewrite IH; [|reflexivity].
+    now rewrite <- app_assoc.
 Qed.
 
-Lemma kept_from_bounds N s E i : In i (kept_from N s E) -> s <= i < s + zlen E.
+Lemma kept_from_bounds N seen s E i : In i (kept_from N seen s E) -> s <= i < s + zlen E.
 Proof.
-  revert s; induction E as [|e t IH]; intros s; [cbn; contradiction|].
+  revert seen s; induction E as [|e t IH]; intros seen s; [cbn; contradiction|].
   assert (zlen (e :: t) = 1 + zlen t) by (unfold zlen; cbn [length]; lia).
   pose proof (zlen_nonneg t). cbn [kept_from].
-  destruct (evalid N e); cbn [In]; [intros [<-|H1]|intros H1]; try lia; apply IH in H1; lia.
+  destruct (ekeep N seen e); cbn [In]; [intros [<-|H1]|intros H1]; try lia; apply IH in H1; lia.
 Qed.
 
-Lemma kept_from_length N s E : length (kept_from N s E) = length (filter (evalid N) E).
-Proof. revert s; induction E as [|e t IH]; intros s; cbn; [reflexivity|]. destruct (evalid N e); cbn; now rewrite IH. Qed.
-
-Lemma kept_from_all N s E : existsb (fun e => negb (evalid N e)) E = false -> kept_from N s E = map fst (enum_from s E).
+(* nothing is dropped: every edge is selected *)
+Lemma sel_from_full N seen es : length (sel_from N seen es) = length es ->
+  sel_from N seen es = es /\ forall s, kept_from N seen s es = map fst (enum_from s es).
 Proof.
-  revert s; induction E as [|e t IH]; intros s; cbn; [reflexivity|]. intros H.
-  apply orb_false_iff in H as [H1 H2]. apply negb_false_iff in H1. rewrite H1. f_equal. now apply IH.
+  revert seen; induction es as [|e t IH]; intros seen; cbn; [auto|].
+  destruct (ekeep N seen e); cbn; intros H.
+  - destruct (IH (kedge e :: seen)) as [H1 H2]; [lia|]. split; [now rewrite H1 | intros s; now rewrite H2].
+  - pose proof (sel_from_length_le N seen t). lia.
 Qed.
+
+Lemma sel_from_full_app N seen E A : length (sel_from N seen (E ++ A)) = length (E ++ A) ->
+  length (sel_from N seen E) = length E.
+Proof.
+  rewrite sel_from_app, !app_length. pose proof (sel_from_length_le N seen E).
+  pose proof (sel_from_length_le N (seen_after N seen E) A). lia.
+Qed.
+
+Lemma edges_dropped_false N es : edges_dropped N es = false <-> length (sel_from N [] es) = length es.
+Proof. unfold edges_dropped. rewrite negb_false_iff. apply Nat.eqb_eq. Qed.
 
 Lemma enum_from_fst_nth {A} s (l : list A) j i : nth_error (map fst (enum_from s l)) j = Some i -> i = s + Z.of_nat j.
 Proof.
